@@ -121,6 +121,7 @@ func main() {
 		ex.writeSlotCopies(filepath.Join(*out, "SlotCopies.lean"))
 		ex.writeIgnoredErrors(filepath.Join(*out, "IgnoredErrors.lean"))
 		ex.writeCallbacks(filepath.Join(*out, "Callbacks.lean"))
+		ex.writeSites(filepath.Join(*out, "Sites.lean"))
 	}
 }
 
@@ -1532,7 +1533,7 @@ func (ex *extractor) writePins(path string) {
 	b.WriteString("def pinSites : List (String × String) := [\n")
 	var ps []string
 	for q, fd := range ex.funcs {
-		if fd.Body == nil || q == "Collection.rootAddRef" {
+		if fd.Body == nil || q == "Collection.rootAddRef" || q == "Collection.rootAddRefIfOpen" {
 			continue
 		}
 		// statements `x := recv.rootAddRef()` whose NEXT statement in the same block is `defer recv.rootDecRef(x)`
@@ -1552,7 +1553,7 @@ func (ex *extractor) writePins(path string) {
 					continue
 				}
 				sel, ok := c.Fun.(*ast.SelectorExpr)
-				if !ok || sel.Sel.Name != "rootAddRef" {
+				if !ok || (sel.Sel.Name != "rootAddRef" && sel.Sel.Name != "rootAddRefIfOpen") {
 					continue
 				}
 				id, ok := as.Lhs[0].(*ast.Ident)
@@ -1571,7 +1572,7 @@ func (ex *extractor) writePins(path string) {
 		})
 		ast.Inspect(fd.Body, func(n ast.Node) bool {
 			if c, ok := n.(*ast.CallExpr); ok {
-				if sel, ok := c.Fun.(*ast.SelectorExpr); ok && sel.Sel.Name == "rootAddRef" {
+				if sel, ok := c.Fun.(*ast.SelectorExpr); ok && (sel.Sel.Name == "rootAddRef" || sel.Sel.Name == "rootAddRefIfOpen") {
 					how := "kept"
 					if paired[c.Pos()] {
 						how = "paired"
@@ -1591,6 +1592,115 @@ func (ex *extractor) writePins(path string) {
 		b.WriteString("  " + r + sep + "\n")
 	}
 	b.WriteString("]\n\nend Gkv.Gen.Pins\n")
+	if err := os.WriteFile(path, []byte(b.String()), 0644); err != nil {
+		fail("%v", err)
+	}
+}
+
+// ---------------------------------------------------------------------------------------------
+// site tables (C15, C10): where the package takes or drops an item reference, where it marks,
+// reclaims, allocates and frees nodes / node locations / versions, where it changes a version's
+// reference count, and every direct assignment to the fields those protocols live in
+// (`node.next`, `rootNodeLoc.refs`, `.superseded`, `.chainedRootNodeLoc`, `.reclaimLater[i]`).
+// The event systems of Model/Refs.lean and Model/Versions.lean claim to have one event kind per
+// such place; these tables are what that claim is checked against.
+
+var refCallees = map[string]bool{"ItemAddRef": true, "ItemDecRef": true, "ItemAlloc": true}
+var reclaimCallees = map[string]bool{"markReclaimable": true, "reclaimMarkUpdate": true, "reclaimMarkClear": true,
+	"markAllUnlocked": true, "reclaimNodesUnlocked": true, "freeNodeUnlocked": true,
+	"freeRootNodeLoc": true, "mkRootNodeLoc": true, "rootAddRef": true, "rootAddRefIfOpen": true,
+	"rootDecRef": true, "rootDecRefUnlocked": true, "rootCAS": true, "closeCollection": true}
+var protoFields = map[string]bool{"next": true, "refs": true, "superseded": true, "chainedRootNodeLoc": true,
+	"chainedCollection": true, "reclaimLater": true}
+
+func (ex *extractor) writeSites(path string) {
+	var refs, recl, asg []string
+	var qs []string
+	for q := range ex.funcs {
+		qs = append(qs, q)
+	}
+	sort.Strings(qs)
+	fieldOf := func(e ast.Expr) (string, bool) {
+		for {
+			switch x := e.(type) {
+			case *ast.IndexExpr:
+				e = x.X
+				continue
+			case *ast.ParenExpr:
+				e = x.X
+				continue
+			case *ast.SelectorExpr:
+				if protoFields[x.Sel.Name] {
+					return x.Sel.Name, true
+				}
+			}
+			return "", false
+		}
+	}
+	for _, q := range qs {
+		fd := ex.funcs[q]
+		ast.Inspect(fd.Body, func(n ast.Node) bool {
+			switch x := n.(type) {
+			case *ast.CallExpr:
+				name := ""
+				switch f := x.Fun.(type) {
+				case *ast.SelectorExpr:
+					name = f.Sel.Name
+				case *ast.Ident:
+					name = f.Name
+				}
+				if refCallees[name] {
+					arg := ""
+					if len(x.Args) > 0 {
+						arg = exprString(x.Args[len(x.Args)-1])
+					}
+					refs = append(refs, fmt.Sprintf("(%q, %q, %q)", q, name, arg))
+				}
+				if reclaimCallees[name] {
+					var a []string
+					for _, y := range x.Args {
+						a = append(a, exprString(y))
+					}
+					recl = append(recl, fmt.Sprintf("(%q, %q, %q)", q, name, strings.Join(a, ", ")))
+				}
+			case *ast.AssignStmt:
+				for i, l := range x.Lhs {
+					if f, ok := fieldOf(l); ok {
+						r := ""
+						if len(x.Rhs) == len(x.Lhs) {
+							r = exprString(x.Rhs[i])
+						} else if len(x.Rhs) == 1 {
+							r = exprString(x.Rhs[0])
+						}
+						asg = append(asg, fmt.Sprintf("(%q, %q, %q)", q, exprString(l)+" "+x.Tok.String(), r))
+						_ = f
+					}
+				}
+			case *ast.IncDecStmt:
+				if _, ok := fieldOf(x.X); ok {
+					asg = append(asg, fmt.Sprintf("(%q, %q, %q)", q, exprString(x.X)+" "+x.Tok.String(), ""))
+				}
+			}
+			return true
+		})
+	}
+	var b strings.Builder
+	b.WriteString("/- GENERATED by /verif/harness/cmd/extract from /repo — do not edit. -/\nnamespace Gkv.Gen.Sites\n\n")
+	emit := func(doc, name string, rows []string) {
+		fmt.Fprintf(&b, "/-- %s -/\ndef %s : List (String × String × String) := [\n", doc, name)
+		for i, r := range rows {
+			sep := ","
+			if i == len(rows)-1 {
+				sep = ""
+			}
+			b.WriteString("  " + r + sep + "\n")
+		}
+		b.WriteString("]\n\n")
+	}
+	emit("every call of `ItemAddRef` / `ItemDecRef` / `ItemAlloc` in the package, in source order per function: (enclosing function, callee, last argument)", "refSites", refs)
+	emit("every call of the marking, reclaiming, allocating, freeing and version-counting functions: (enclosing function, callee, arguments)", "reclaimSites", recl)
+	emit("every assignment to (or increment, decrement of) a field named next, refs, superseded, chainedRootNodeLoc, chainedCollection, reclaimLater: (enclosing function, target and operator, right-hand side)", "protoAssigns", asg)
+	b.WriteString("end Gkv.Gen.Sites\n")
 	if err := os.WriteFile(path, []byte(b.String()), 0644); err != nil {
 		fail("%v", err)
 	}
